@@ -595,7 +595,7 @@ fn ordinary_counting_system(mut c: Commands, mut log: bevy::ecs::system::ResMut<
 /// (so those already see no event data); the system's `Local` continues over two commands; quiescent after each.
 runner_harness!(runner_real_callback_cleanup_before_deferred, 4, {
     let mut world = mk_world();
-    world.m_apply_table::<(Mark, SystemCommand)>();
+    world.m_apply_table::<(Mark,)>();
     world.m_drop_table::<bevy::model::cell::LeakAll>();
     let a = spawn_system_command(&mut world, ordinary_counting_system);
     syscommand_runner(&mut world, a, setup_k(1, a), cleanup_k(1));
